@@ -113,6 +113,14 @@ theorem C01_rx_read_exact (dl : Bool) (src : Src) (k : Nat) :
     ((connRead dl maxAttempts src k).2.1 = .ok → (connRead dl maxAttempts src k).1.length = k) :=
   connRead_prefix dl maxAttempts src k
 
+open Rx in
+/-- with fewer than five deadline expiries before the k-th byte (or no deadline at all) it returns exactly the
+    next k bytes and leaves the socket behind them -/
+theorem C01_rx_read_ok (dl : Bool) (src : Src) (k : Nat) (h : k ≤ (bytes src).length)
+    (he : dl = true → expiriesBefore k src < maxAttempts) :
+    connRead dl maxAttempts src k = ((bytes src).take k, .ok, dropBytes k src) :=
+  connRead_calm dl src k h he
+
 /- FULL property (does NOT hold for the code as it is, see `C01_rx_cex_stalled_body`):
      ∀ frames `fs` well-formed for the protocol, ∀ sockets `src` carrying exactly their encoding (cut and
      delayed in any way), `recv` hands every frame, own header and own body, to the call registered for its
